@@ -63,7 +63,9 @@ def strip_comment_ws(c):
 
     def f(x):
         if isinstance(x, dict) and "//" in x:
-            return {"data": [[k, f(v)] for k, v in x["data"]], "//": [norm(t) for t in x["//"]], "/*": sorted(norm(t) for t in x["/*"]),
+            lc = [norm(t) for t in x["//"]]
+            lc = [t for i, t in enumerate(lc) if t not in lc[:i]]      # comments that differ only in trailing blanks are identical once written
+            return {"data": [[k, f(v)] for k, v in x["data"]], "//": lc, "/*": sorted(norm(t) for t in x["/*"]),
                     "#include": x["#include"]}
         return x
     return f(c)
@@ -84,7 +86,7 @@ def gen_source(rng):
     """returns files {relpath: text}, root name, flags"""
     for _ in range(50):
         items = c12.gen_items(rng, rng.choice([0, 1, 2]))
-        known = c12.first_block_nested(items) or c12._d32({"input": {"items": items}}) or _has_overflow(items)
+        known = c12.first_block_nested(items) or c12._d32({"input": {"items": items}}) or _has_overflow(items) or blank_twins(items)
         # inputs of the known-finding classes D28 / D32 / D2 are kept out of the compared stream (a few go through
         # to confirm that the class still fails)
         if not known or rng.random() < 0.03:
@@ -235,11 +237,34 @@ def _w33() -> bool:
         return (td / "c1").read_text() != (td / "c2").read_text()
 
 
+def blank_twins(items) -> bool:
+    """two line comments at one dict level that differ only in trailing white space (known finding D41)"""
+    lc = [it["text"] for it in items if it["i"] == "lineC"]
+    st = [t.rstrip() for t in lc]
+    if any(a != b and a.rstrip() == b.rstrip() for i, a in enumerate(lc) for b in lc[i + 1:]):
+        return True
+    return any(blank_twins(it["items"]) for it in items if it["i"] == "sub") or \
+        any(blank_twins(d) for it in items if it["i"] == "lstd" for d in it["ds"])
+
+
+def _d41(v: dict) -> bool:
+    return blank_twins(v["input"].get("items", []))
+
+
+def _w41() -> bool:
+    from dictIO import DictReader, DictWriter
+    with impl.scratch() as td:
+        (td / "s").write_text("a 1;\n//\n// \nb 2;\n")
+        DictWriter.write(DictReader.read(td / "s"), td / "w1", mode="w")
+        DictWriter.write(DictReader.read(td / "w1"), td / "w2", mode="w")
+        return (td / "w1").read_text() != (td / "w2").read_text()
+
+
 def _d33(v: dict) -> bool:
     names = [it["name"] for it in v["input"].get("items", []) if it["i"] == "incl"]
     return len(names) != len(set(names))
 
 
 KNOWN_CLASSES = {"first_block_comment_nested": _d28, "same_block_comment_two_levels": _d32, "overflow_number_string": _d2,
-                 "same_include_twice": _d33}
-WITNESSES = {"D28": c12._w28, "D32": c12._w32, "D2": c01._w2, "D33": _w33}
+                 "same_include_twice": _d33, "line_comments_differing_in_trailing_blanks": _d41}
+WITNESSES = {"D28": c12._w28, "D32": c12._w32, "D2": c01._w2, "D33": _w33, "D41": _w41}
